@@ -871,6 +871,23 @@ func (ob *SuObject) Iter() Iter {
 }
 
 func (ob *SuObject) ToRecord(th *Thread, hdr *Header) Record {
+	rec, tsField, ts := ob.toRecord(th, hdr)
+	if tsField != "" {
+		// needs the write lock, toRecord only holds the read lock
+		ob.setUnlessReadOnly(SuStr(tsField), ts)
+	}
+	return rec
+}
+
+func (ob *SuObject) setUnlessReadOnly(key, val Value) {
+	ob.Lock()
+	defer ob.Unlock()
+	if !ob.readonly {
+		ob.set(key, val)
+	}
+}
+
+func (ob *SuObject) toRecord(th *Thread, hdr *Header) (Record, string, PackableValue) {
 	ob.RLock()
 	defer ob.RUnlock()
 	assert.That(len(hdr.Fields) == 1)
@@ -892,10 +909,7 @@ func (ob *SuObject) ToRecord(th *Thread, hdr *Header) Record {
 			}
 		}
 	}
-	if tsField != "" && !ob.readonly {
-		ob.set(SuStr(tsField), ts)
-	}
-	return rb.Trim().Build()
+	return rb.Trim().Build(), tsField, ts
 }
 
 func (ob *SuObject) Sort(th *Thread, lt Value) {
